@@ -317,13 +317,24 @@ func serverRxQueue(sp, cp int) (int, bool) {
 var diagBroken bool
 
 func rxQueueSockDiag(sp, cp int) (int, bool) {
+	n, st := sockDiagQuery(sp, cp)
+	return n, st == diagFound
+}
+
+const (
+	diagFound    = iota
+	diagGone     // the kernel answered: no such socket (the server closed it)
+	diagUnusable // sock_diag not available / no answer
+)
+
+func sockDiagQuery(sp, cp int) (int, int) {
 	if diagBroken {
-		return 0, false
+		return 0, diagUnusable
 	}
 	fd, err := syscall.Socket(syscall.AF_NETLINK, syscall.SOCK_DGRAM|syscall.SOCK_CLOEXEC, 4 /* NETLINK_SOCK_DIAG */)
 	if err != nil {
 		diagBroken = true
-		return 0, false
+		return 0, diagUnusable
 	}
 	defer syscall.Close(fd)
 	req := make([]byte, 16+56)
@@ -343,19 +354,19 @@ func rxQueueSockDiag(sp, cp int) (int, bool) {
 	binary.LittleEndian.PutUint32(id[44:], 0xFFFFFFFF)
 	if err := syscall.Sendto(fd, req, 0, &syscall.SockaddrNetlink{Family: syscall.AF_NETLINK}); err != nil {
 		diagBroken = true
-		return 0, false
+		return 0, diagUnusable
 	}
 	tv := syscall.Timeval{Usec: 200000}
 	syscall.SetsockoptTimeval(fd, syscall.SOL_SOCKET, syscall.SO_RCVTIMEO, &tv)
 	resp := make([]byte, 4096)
 	n, _, err := syscall.Recvfrom(fd, resp, 0)
-	if err != nil || n < 16+72 {
-		return 0, false
+	if err != nil || n < 16 {
+		return 0, diagUnusable
 	}
-	if binary.LittleEndian.Uint16(resp[4:]) != 20 {
-		return 0, false // NLMSG_ERROR: no such socket (yet)
+	if binary.LittleEndian.Uint16(resp[4:]) != 20 || n < 16+72 {
+		return 0, diagGone // NLMSG_ERROR: no such socket
 	}
-	return int(binary.LittleEndian.Uint32(resp[16+56:])), true
+	return int(binary.LittleEndian.Uint32(resp[16+56:])), diagFound
 }
 
 func rxQueueProc(sp, cp int) (int, bool) {
